@@ -280,6 +280,7 @@ func runC07(c *config) {
 		fmt.Println("replay: re-run ./check C07 with the same VERIF_SEED (the generator is deterministic)")
 		return
 	}
+	c07Bool(c, newRng(c.seed, "c07bool"))
 	// bodies of the identified structs of the universe, for the model
 	for _, n := range g.names {
 		u.namedStruct(n)
@@ -619,4 +620,77 @@ func hxOk(s string) string {
 		return "Ok " + hx(s[3:])
 	}
 	return s
+}
+
+// boolean indices (i1 true / i1 false) at struct and array positions: the parser, the instruction constructor and
+// the constant-expression constructor compute the same type (at a struct position `i1 true` is field 1)
+func c07Bool(c *config, r *rng) {
+	o := c.out
+	inner := types.NewStruct(types.I64, types.Float)
+	inner.Packed = true
+	st := types.NewStruct(types.I8, types.NewArray(3, types.I16), inner)
+	for i := 0; i < 120*c.scale; i++ {
+		as := types.AddrSpace(r.intn(3))
+		pt := types.NewPointer(st)
+		pt.AddrSpace = as
+		// a path through the struct: first index over the pointer, then a field, then inside the field
+		field := r.intn(2) // field 0 or 1 can be named by a boolean
+		var idx []constant.Constant
+		first := []constant.Constant{constant.NewInt(types.I64, 0), constant.NewBool(false), constant.NewInt(types.I32, 0)}[r.intn(3)]
+		idx = append(idx, first)
+		if r.coin() {
+			idx = append(idx, constant.NewBool(field == 1))
+		} else {
+			idx = append(idx, constant.NewInt(types.I32, int64(field)))
+		}
+		if field == 1 && r.coin() {
+			idx = append(idx, []constant.Constant{constant.NewBool(true), constant.NewBool(false), constant.NewInt(types.I64, 2)}[r.intn(3)])
+		}
+		hasBool := false
+		for _, x := range idx {
+			if x.Type().Equal(types.I1) {
+				hasBool = true
+			}
+		}
+		if !hasBool {
+			continue
+		}
+		var ops []value.Value
+		var texts []string
+		for _, x := range idx {
+			ops = append(ops, x)
+			texts = append(texts, x.String())
+		}
+		src := ir.NewParam("p", pt)
+		instT := tyOrPanic(func() types.Type { return ir.NewGetElementPtr(st, src, ops...).Typ })
+		exprT := tyOrPanic(func() types.Type { return constant.NewGetElementPtr(st, constant.NewUndef(pt), idx...).Typ })
+		text := fmt.Sprintf("define void @f(%s %%p) {\n\t%%r = getelementptr %s, %s %%p, %s\n\tret void\n}\n", pt, st, pt, strings.Join(texts, ", "))
+		parseT := "Panic"
+		oc, msg := guard(func() error {
+			m, err := asm.ParseString("c07b.ll", text)
+			if err != nil {
+				return err
+			}
+			parseT = "Ok " + m.Funcs[0].Blocks[0].Insts[0].(*ir.InstGetElementPtr).Typ.String()
+			return nil
+		})
+		if oc == ocErr {
+			parseT = "Err " + msg
+		}
+		// the expected type, computed here: booleans are the numbers 0 and 1
+		var want types.Type = st.Fields[field]
+		if field == 1 && len(idx) == 3 {
+			want = types.I16
+		}
+		wp := types.NewPointer(want)
+		wp.AddrSpace = as
+		wantS := "Ok " + wp.String()
+		o.Stat("bool_indices")
+		if instT != wantS || exprT != wantS || parseT != wantS {
+			o.Fail("gep_type", "", "a boolean index is not stepped through alike by the parser and the two constructors",
+				map[string]interface{}{"src": text, "want": wantS, "inst": instT, "expr": exprT, "parser": parseT})
+		} else {
+			o.Pass("gep_type")
+		}
+	}
 }
